@@ -22,9 +22,31 @@ class _Spin(BaseException):
 _BYSTANDER_DONE = [False]
 
 
-def run_scenario(outcomes, lifetimes, close_iter, cfg, horizon=30.0, tail=40.0, slow=3.0, runs=1, close_iter2=None, idle_close=False, outside=False):
+def _dst_base() -> float:
+    """Epoch of a moment 20 s before the next change of this process's UTC offset in 2026 (spring forward or fall back), or
+    2000-01-01 if the zone has none: the manager's wall clock crosses it during the scenario, its monotonic clock does not care."""
+    import time
+    t0 = 1767225600            # 2026-01-01T00:00:00Z
+    prev = time.localtime(t0).tm_gmtoff
+    for h in range(1, 366 * 24):
+        off = time.localtime(t0 + h * 3600).tm_gmtoff
+        if off != prev:
+            lo, hi = t0 + (h - 1) * 3600, t0 + h * 3600
+            while hi - lo > 1:
+                mid = (lo + hi) // 2
+                if time.localtime(mid).tm_gmtoff == prev:
+                    lo = mid
+                else:
+                    hi = mid
+            return float(hi - 20)
+        prev = off
+    return 946684800.0
+
+
+def run_scenario(outcomes, lifetimes, close_iter, cfg, horizon=30.0, tail=40.0, slow=3.0, runs=1, close_iter2=None, idle_close=False, outside=False, sync_close=False):
     """One execution of the real ConnectionManager. Events are recorded by harness-owned fakes only.
-    outside: the manager object is constructed while ANOTHER event loop is the current one (set-up code before the application's loop)."""
+    outside: the manager object is constructed while ANOTHER event loop is the current one (set-up code before the application's loop).
+    sync_close: the transport's close() calls protocol.connection_lost() at once instead of scheduling it (a user-written transport may)."""
     if not _BYSTANDER_DONE[0]:
         # once per process: another manager has lived (one connection, an outage, close() in the middle of the back-off sequence).
         # Managers are independent objects: nothing of this may show in any later scenario.
@@ -38,15 +60,17 @@ def run_scenario(outcomes, lifetimes, close_iter, cfg, horizon=30.0, tail=40.0, 
     loop = VLoop()
     asyncio.set_event_loop(loop)
 
-    class FakeDT:  # stand-in for the datetime module inside meter_connection: utcnow() = virtual clock
+    base = _dst_base()
+
+    class FakeDT:  # stand-in for the datetime module inside meter_connection: the virtual clock as wall clock of this process's time zone
         class datetime:  # noqa: N801
             @staticmethod
             def utcnow():
-                return real_dt.datetime(2000, 1, 1) + real_dt.timedelta(seconds=loop.time())
+                return real_dt.datetime(1970, 1, 1) + real_dt.timedelta(seconds=base + loop.time())
 
             @staticmethod
             def now(tz=None):
-                return real_dt.datetime(2000, 1, 1, tzinfo=tz) + real_dt.timedelta(seconds=loop.time())
+                return real_dt.datetime.fromtimestamp(base + loop.time(), tz)
         timedelta = real_dt.timedelta
         timezone = real_dt.timezone
 
@@ -66,10 +90,16 @@ def run_scenario(outcomes, lifetimes, close_iter, cfg, horizon=30.0, tail=40.0, 
             if not self.closed:
                 self.closed = True
                 ev.append(_ev("tclose", loop.time(), self.i))
-                loop.call_soon(self.proto.connection_lost, None)
+                if sync_close:
+                    self.proto.connection_lost(None)
+                else:
+                    loop.call_soon(self.proto.connection_lost, None)
 
         def is_closing(self):
             return self.closed
+
+        def __len__(self):          # an idle transport with an empty write buffer is falsy - and still a transport
+            return 0 if self.i % 3 == 1 else 1
 
         def get_extra_info(self, name, default=None):
             return default
@@ -91,7 +121,15 @@ def run_scenario(outcomes, lifetimes, close_iter, cfg, horizon=30.0, tail=40.0, 
         if "fail" in oc:
             ev.append(_ev("attempt_end", loop.time(), i, ok=False))
             # a failed attempt is a failed attempt whatever the factory raises
-            raise [OSError, TimeoutError, ConnectionRefusedError, asyncio.TimeoutError, RuntimeError, ValueError, EOFError][(i + len(outcomes)) % 7]("connect failed")
+            import socket
+            k = (i + len(outcomes)) % 10
+            if k == 7:
+                raise socket.gaierror(socket.EAI_NONAME, "Name or service not known")      # an OSError whose errno is not an errno code
+            if k == 8:
+                raise OSError(99999, "connect failed")
+            if k == 9:
+                raise ConnectionResetError(104, "Connection reset by peer")
+            raise [OSError, TimeoutError, ConnectionRefusedError, asyncio.TimeoutError, RuntimeError, ValueError, EOFError][k]("connect failed")
         q = asyncio.Queue()
         p = mc.SmartMeterMessageProtocol(q, [HdlcFrameReader()])
         t = T(i)
@@ -225,7 +263,7 @@ def _job(args):
     out = []
     nexec = 0
     for sn, (outcomes, lifetimes, cfg) in enumerate(scripts):
-        kw = {"outside": True} if sn % 3 == 1 else {}        # a third of the scripts: manager built before its loop runs
+        kw = {"outside": True} if sn % 3 == 1 else ({"sync_close": True} if sn % 3 == 2 else {})   # manager built before its loop runs / transport closing synchronously
         base, its, ret_it = trace_of(outcomes, lifetimes, None, cfg, "enum:noclose", **kw)
         out.append(base)
         nexec += 1
@@ -485,6 +523,10 @@ def run_c18(chk: Check) -> int:
             scripts.append((("ok", "ok") + ("fail",) * k + ("ok", "ok", "fail", "ok"), (1, 1) + (None,) * k + (20, 1, None, 3), cfg))
             scripts.append((("fail",) * k + ("ok", "ok", "ok") + ("fail",) * 2 + ("ok",), (None,) * k + (1, 1, 9) + (None,) * 2 + (2,), cfg))
             scripts.append((("ok", "fail", "ok") * 2 + ("fail",) * k + ("ok",), (1, None, 1) * 2 + (None,) * k + (30,), cfg))
+    for cfg in CFGS:        # two losses within the threshold on either side of t = 20 s, where the wall clock of a DST zone changes its offset
+        g = min(1.4, cfg["threshold"] * 0.6)
+        scripts.append((("ok",) * 5, (20 - g / 2, g, 9.0, g, 30), cfg))
+        scripts.append((("fail", "ok", "ok", "ok", "fail", "ok"), (None, 19.5 - 1, g, 12, None, 30), cfg))
     for cfg in CFGS:        # losses whose gap is just inside the threshold, at sub-second phases (0.8 -> 5.1 with threshold 5)
         thr = cfg["threshold"]
         for first in (0.8, 0.95, 0.25, 1.0):
